@@ -695,7 +695,7 @@ def digits(rep, lib):
     """Every digit read_digits takes from the input ends up in the number's text."""
     r = rep.rule("C01-DIGITS", "Reader::read_digits: for each of the ten digits the byte is appended to the buffer "
                  "exactly once and then consumed (never consumed without being appended, whatever the buffer already "
-                 "holds); any other byte and the end of input leave the loop without consuming anything", floor=3,
+                 "holds and however many digits came before); any other byte and the end of input leave the loop without consuming anything", floor=4,
                  analysis="A5 partial evaluation of one loop turn of read_digits over all byte values + EOF")
     b = lib.bodies.get("reader::Reader::<R>::read_digits")
     if b is None:
@@ -754,6 +754,56 @@ def digits(rep, lib):
     else:
         r.ok("read_digits[other]", "246 other byte values and EOF end the run untouched", b.where())
     r.ok("read_digits[anchor]", "one peek decision", peeks[0].where(), nontrivial=False)
+    # the evaluation above is one turn of the loop from the function's entry, where a counter still has its
+    # initial value; so, separately: no branch inside the loop tests a local that the loop itself counts up or down
+    # (`if kept < MAX { push }`: the first digits are kept, later ones are consumed and dropped - seed C02-r10-1)
+    loopblocks = set()
+    for h, blocks in b.loops().items():
+        if any(c.bb in blocks for c in peeks) or any(is_next(c) and c.bb in blocks for c in b.calls):
+            loopblocks |= blocks
+    arith, flows = set(), {}
+    for bb, idx, place, rv, _ in b.assignments():
+        if bb not in loopblocks:
+            continue
+        if rv["k"] in ("binop", "checked_binop") and rv.get("op") in ("Add", "Sub", "AddWithOverflow", "SubWithOverflow",
+                                                                      "AddUnchecked", "SubUnchecked", "Mul", "MulWithOverflow"):
+            arith.add(place["l"])
+        elif rv["k"] == "use" and rv["op"].get("place") is not None:
+            flows.setdefault(rv["op"]["place"]["l"], set()).add(place["l"])
+    for c in b.calls:
+        if c.bb in loopblocks and (c.name or "").rsplit("::", 1)[-1] in (
+                "saturating_add", "saturating_sub", "wrapping_add", "wrapping_sub", "checked_add", "checked_sub"):
+            arith.add(c.dest["l"])
+    changed = True
+    while changed:
+        changed = False
+        for src, dsts in flows.items():
+            if src in arith and not dsts <= arith:
+                arith |= dsts
+                changed = True
+    tested = []
+    for bb, idx, place, rv, _ in b.assignments():
+        if bb in loopblocks and rv["k"] == "binop" and rv.get("op") in ("Lt", "Le", "Gt", "Ge", "Eq", "Ne"):
+            ops = [o.get("place", {}).get("l") for o in (rv["a"], rv["b"]) if o.get("place") is not None]
+            if any(o in arith for o in ops):
+                res_l = {place["l"]}
+                grow = True
+                while grow:
+                    grow = False
+                    for s_, d_ in flows.items():
+                        if s_ in res_l and not d_ <= res_l:
+                            res_l |= d_
+                            grow = True
+                for sb in loopblocks:
+                    t = b.term(sb)
+                    if t["k"] == "switch" and t["discr"].get("place", {}).get("l") in res_l:
+                        tested.append((bb, sb))
+    if tested:
+        r.bad("read_digits[counter]", "inside the digit loop a branch tests a local that the loop itself counts "
+              "(comparison in block %d, branch in block %d): what happens to a digit depends on how many digits "
+              "came before it, not on the byte alone" % tested[0], b.where(tested[0][1]))
+    else:
+        r.ok("read_digits[counter]", "no branch of the loop depends on a count of earlier digits", b.where())
     return r
 
 
